@@ -153,3 +153,16 @@ void harness_cmp(void) {
     __CPROVER_assert(verif_illegal_count == (x1 == 0) + (x2 == 0), "exactly one illegal callback per invalid key");
     __CPROVER_assert(c >= 0, "witness: less"); __CPROVER_assert(c != 0, "witness: equal");
 }
+
+/* keypair_xonly_tweak_add on INVALID keypair objects (zero public half or zero / out-of-range secret half): an argument error, and
+ * the object is wiped all the same -- a half-valid keypair must not survive a failed call */
+void harness_keypair_tweak_invalid(void) {
+    secp256k1_context ctx; in_t in = nondet_in(); secp256k1_keypair kp = in.kp; int r; bvw d, x, y;
+    verif_ctx_init(&ctx); glue_init();
+    d = be_val(&in.kp.data[0], 32); x = st_val(&in.kp.data[32]); y = st_val(&in.kp.data[64]); __CPROVER_assume(x < P && y < P);
+    __CPROVER_assume(x == 0 || d == 0 || d >= N);
+    r = secp256k1_keypair_xonly_tweak_add(&ctx, &kp, in.t);
+    __CPROVER_assert(r == 0 && verif_illegal_count == 1, "invalid keypair: failure through exactly one illegal callback");
+    __CPROVER_assert(verif_allzero(&kp, sizeof(kp)), "invalid keypair: the whole object is wiped (no half-valid keypair survives)");
+    __CPROVER_assert(x == 0, "witness: valid public half with invalid secret half");
+}
